@@ -241,25 +241,35 @@ def run(ctx: Ctx):
             # right-hand side of an assignment or inside a returned tuple
             cat_ = n if isinstance(n, ast.Call) and call_name(n) == "torch.cat" and n.args and isinstance(n.args[0], (ast.List, ast.Tuple)) \
                 and len(n.args[0].elts) == 2 else None
-            if cat_ is not None and rdx.derives(cat_.args[0].elts[0], value_flow=True).params() & score_formals \
-                    and not (rdx.derives(cat_.args[0].elts[0], value_flow=True).params() - score_formals - {"width", "self"}) \
+
+            def _score_block(b_):
+                dv = rdx.derives(b_, value_flow=True)
+                return bool(dv.params() & score_formals) and not (dv.params() - score_formals - {"width", "self"}) \
                     and not any(d_.slot == (1,) and isinstance(d_.value, ast.Call) and isinstance(d_.value.func, ast.Attribute)
-                                and d_.value.func.attr in ("topk", "sort", "max", "min") for d_ in rdx.derives(cat_.args[0].elts[0], value_flow=True).defs):
+                                and d_.value.func.attr in ("topk", "sort", "max", "min") for d_ in dv.defs)
+            which = [i_ for i_, b_ in enumerate(cat_.args[0].elts) if _score_block(b_)] if cat_ is not None else []
+            if len(which) == 1:
                 n = ast.Assign(targets=[ast.Name(id="scores", ctx=ast.Store())], value=cat_, lineno=cat_.lineno)
                 n_ += 1
                 from sa.inline import Inliner as _Inl
-                e = _Inl(f_.node, rdx).expand(n.value.args[0].elts[1])
+                e = _Inl(f_.node, rdx).expand(n.value.args[0].elts[1 - which[0]])
                 ok = isinstance(e, ast.Call) and call_name(e).split(".")[-1] in ("new_full", "full") \
                     and len(e.args) >= 2 and is_neg_inf(e.args[1])
                 col.ob("G13", "S4", f"{rel}::{tag}::unusable-slots=-inf", ok,
                        f"`{u(n)[:90]}` pads scores with something other than -inf (an unusable slot would outrank "
                        f"real paths)", rel, n.lineno, sample=u(n)[:120])
+                # the filler goes BEHIND the scores: the tokens, lengths and sources of the unusable slots are appended behind
+                # the real ones, so a filler in front gives the real paths' slots the score -inf and the junk slots the real scores
+                col.ob("G13", "S4", f"{rel}::{tag}::unusable-slots-behind-the-real-ones", which[0] == 0,
+                       f"`{u(n)[:90]}` puts the filler scores in front of the real ones while the filler tokens / lengths are appended "
+                       f"behind: every real path gets the score of an unusable slot", rel, n.lineno, sample=u(n)[:120])
         col.floor(f"score_pad_sites[{tag}]", n_, 1)
     _all_paths_done_ignores_empty_slots(ctx)
     _initial_score_is_zero(ctx)
     from .search_common import finished_mass_on_eos
     finished_mass_on_eos(ctx, pkg.func(f"{MOD}::BeamSearch.forward"), "S3")
     _pad_block_takes_extents_from_its_partner(ctx)
+    _batch_axis_dropped_iff_unset(ctx)
     # shallow fusion: each component keeps its own state through split / extract / mix / merge
     from .search_common import fusion_component_lineage
     fusion_component_lineage(ctx, "S3")
@@ -420,6 +430,47 @@ def _initial_score_is_zero(ctx: Ctx):
            f"the search starts its single empty prefix at `{u(fill)}` = {vals} (width 1, 3) instead of log 1 = 0: every reported "
            f"log-probability is shifted by that constant and no longer equals the model's chained score of the returned tokens", rel,
            inits[0].line, sample={str(k): float(x) for k, x in vals.items()})
+
+
+def _batch_axis_dropped_iff_unset(ctx: Ctx):
+    """S9: 'what is returned for one batch element is what searching that element alone returns' includes the layout: with batch_size
+    set the results keep their batch axis ((S, N, width) / (N, width)) for EVERY N, a batch of one included; the axis is dropped only
+    when the caller gave no batch size (the function added it itself). The conditions under which the results are squeezed after the
+    step loop are evaluated (names expanded to their definitions) for batch_size None, 1, 2, 5: true exactly for None."""
+    from sa.inline import Inliner
+    from sa.inteval import NotEvaluable, int_eval
+    col, pkg = ctx.col, ctx.pkg
+    f = pkg.func("_decoding::BeamSearch.forward")
+    rel = f.module.relname
+    where = f"{rel}::BeamSearch.forward"
+    rd = ReachingDefs(f.node)
+    pm = parent_map(f.node)
+    bs = next((p_.name for p_ in f.params if "batch" in p_.name), None)
+    if bs is None:
+        raise AnalysisError("C04: BeamSearch.forward has no batch-size formal")
+    loops = [st for st in f.node.body if isinstance(st, (ast.For, ast.While))]
+    if not loops:
+        raise AnalysisError("C04: BeamSearch.forward has no step loop")
+    after = max(l.end_lineno for l in loops)
+    sites = [c for c in own_nodes(f.node) if isinstance(c, ast.Call) and isinstance(c.func, ast.Attribute) and c.func.attr == "squeeze"
+             and c.lineno > after]
+    col.floor("result_squeeze_sites", len(sites), 1)
+    inl = Inliner(f.node, rd)
+    bad = None
+    try:
+        for c in sites:
+            gs = guards_of(pm, c)
+            for v in (None, 1, 2, 5):
+                holds = all(bool(int_eval(inl.expand(t), {bs: v})) == pol for t, pol in gs)
+                if holds != (v is None) and bad is None:
+                    bad = (c, v, holds, [(u(t)[:40], pol) for t, pol in gs])
+    except NotEvaluable as e:
+        col.undecided(f"{where}: the condition of the final squeeze is outside the evaluated fragment ({e})")
+        return
+    col.ob("G12", "S9", f"{where}::batch-axis-dropped-iff-no-batch-size", bad is None,
+           (f"with {bs}={bad[1]} the results are {'squeezed' if bad[2] else 'not squeezed'} (`{u(bad[0])[:40]}` under {bad[3]}): the batch "
+            f"axis must be dropped exactly when no batch size was given - a batch of one element keeps its (S, 1, width) / (1, width) layout") if bad else "",
+           rel, sites[0].lineno if sites else f.line, sample=dict(sites=len(sites)))
 
 
 def _pad_block_takes_extents_from_its_partner(ctx: Ctx):
